@@ -249,6 +249,20 @@ CHECKS = {
         technique='solver-enumerated bounded exploration (z3 DFS) with native execution; AST skeleton comparison of generated modules',
         engine='E2',
     ),
+    'C02': dict(
+        category='other',
+        text=('(a) Bounded exploration, enumerated by z3 and executed natively on real .xlsx files through the real Parser, of 93 reference spellings '
+              '(relative / $-absolute, bare / unquoted / quoted sheet prefix, cell, row and column ranges, rectangles, whole columns, other sheets, missing '
+              'sheets) x 3 formula sheets x 5 positions (operand, SUM, SUM twice, COUNTIFS range, INDEX with every (row, column)); the cells hold distinct '
+              'powers of two, so SUM identifies the exact set of cells and INDEX their order; a missing sheet must be rejected. (b) reference text -> '
+              'token -> handle_cell: z3-enumerated pieces (title spelling, $ flags, boundary columns A..ZZZ, boundary rows, trailing character) must '
+              'come back as the intended indices; every one of the 18 278 column names is run concretely.'),
+        design_ref='DESIGN.md section 6 / C02',
+        note=('the solver enumerates finite case spaces here (E1 with symbolic reference text was measured: thousands of paths, one per character value, no '
+              'verdict in 180 s); 4x4 blocks; titles containing quotes or exclamation marks, 3-D and lower-case references are outside the claim.'),
+        technique='solver-enumerated bounded exploration (z3 DFS) with native execution of the real code on real .xlsx files',
+        engine='E2',
+    ),
 }
 
 NOT_YET = {}   # filled below for every property without a check
